@@ -71,6 +71,14 @@ def chunks(tier):
             for wv in ((0, 1) if full else (0,)):
                 out.append(("A5", {"fam": "A5", "method": method, "geo": geo, "full": full, "wv": wv,
                                    "flow": "system" if i % 2 else "borehole", "load_years": [2019, 2020, 2021] if (i + wv) % 2 == 0 else None}))
+    # polygon-constrained lots without no-go zones whose sides are oblique to the candidate grid (the clipped borehole counts of growing
+    # grids are then not monotone before the lists are ordered)
+    for k, pb in enumerate(([[30.0, 0.0], [60.0, 25.0], [30.0, 50.0], [0.0, 25.0]], [[0.0, 10.0], [45.0, 0.0], [60.0, 35.0], [20.0, 50.0]])):
+        if not full and k:
+            continue
+        for wv in ((0, 1) if full else (0,)):
+            out.append(("A5", {"fam": "A5", "method": "constrained", "geo": {"b_min": 8.0, "b_max_x": 20.0, "b_max_y": 20.0, "property_boundary": pb, "no_go_boundaries": []},
+                               "full": full, "wv": wv, "flow": "borehole", "load_years": None}))
     rw_lots = [
         ({"property_boundary": [[2.0, 3.0], [42.0, 3.0], [42.0, 28.0], [2.0, 28.0]], "no_go_boundaries": [],
           "min_spacing": 5.0, "max_spacing": 12.0, "spacing_step": 0.5, "min_rotation": -90.0, "max_rotation": 0.0,
